@@ -280,6 +280,98 @@ def canary_case(t):
     return t[:m.start(2)] + str(int(m.group(2)) + 1) + t[m.end(2):] if m else None
 
 
+FN_CODE = {"count": 0, "sum": 1, "min": 2, "max": 3, "first": 4, "last": 5}
+
+
+def agg_case_coq(h):
+    """history -> (Coq text of list (op * list aggobs), number of observations, [(op index, obs)] in model order).
+    Observations of ops the model does not replay (failed write, reorganisation that changed nothing) are attached to the
+    last replayed op: the layout is the same."""
+    items, flat = [], []
+    pending = []
+    for txt, i in model_ops(h):
+        obs = h["ops"][i].get("agg") or []
+        if txt is None:
+            if items:
+                items[-1][1].extend((i, o) for o in obs)
+            else:
+                pending.extend((i, o) for o in obs)   # before the first replayed op: the layout is `init` - nothing to read; skipped
+            continue
+        items.append((txt, [(i, o) for o in obs]))
+    out = []
+    for txt, obs in items:
+        ol = []
+        for (i, o) in obs:
+            ol.append("{| a_desc := %s; a_s := %s; a_tmin := %s; a_tmax := %s; a_f := %s; a_fn := %s; a_has := %s; a_v := %s; a_t := %s |}" % (
+                "true" if o.get("desc") else "false", coq_z(o["s"]), coq_z(o["tmin"]), coq_z(o["tmax"]), coq_z(o["f"]),
+                coq_z(FN_CODE[o["fn"]]), "true" if o["has"] else "false", coq_z(o["v"]), coq_z(o.get("t", 0))))
+            flat.append((i, o))
+        out.append("(%s, %s)" % (txt, coq_list(ol)))
+    return coq_list(out), len(flat), items
+
+
+def eval_agg(ck, hs, ok):
+    """replays the aggregate observations (file-cursor path) on the Coq model of the walk. Returns {case index: [(op
+    index, observation)]} of the observations the model does not reproduce, or None when the evaluation itself failed
+    (recorded in ck.broken). Fails closed: the number of observations evaluated must equal the number sent, every printed
+    tuple must be readable, and a canary history with one corrupted value must be reported."""
+    if not ok:
+        return None
+    shard = 25
+    files, meta = [], []
+    hdr = ("From Coq Require Import ZArith List Bool. From OG Require Import C02.Model C02.FileCursor C02.CorrAgg.\n"
+           "Import ListNotations. Open Scope Z_scope.\n")
+    canary = None
+    for a in range(0, len(hs), shard):
+        texts, counts, itemss = [], 0, []
+        for h in hs[a:a + shard]:
+            t, n, items = agg_case_coq(h)
+            texts.append(t)
+            counts += n
+            itemss.append(items)
+            if canary is None and n > 0 and not (h.get("oracle") or h.get("xoracle") or h.get("crash")):
+                m = re.search(r"(a_has := true; a_v := \(?)(-?\d+)", t)   # an observation whose value is compared
+                if m:
+                    canary = t[:m.start(2)] + str(int(m.group(2)) + 1) + t[m.end(2):]
+        files.append(("c02agg%d" % (a // shard), hdr + "Definition cases : list (list (op * list aggobs)) := [\n%s\n].\n"
+                      "Definition A := Eval vm_compute in agg_mismatches cases.\nPrint A.\n"
+                      "Definition T := Eval vm_compute in agg_total cases.\nPrint T.\n" % ";\n".join(texts)))
+        meta.append((a, counts, itemss))
+    NCAN = 12
+    if canary is not None:
+        files.append(("c02aggcanary", hdr + "Definition cases : list (list (op * list aggobs)) := [\n%s\n].\n"
+                      "Definition A := Eval vm_compute in agg_mismatches cases.\nPrint A.\n" % ";\n".join([canary] * NCAN)))
+    outs = ck.coq_eval_many(files, timeout=900)
+    if canary is not None:
+        rc, o = outs.pop()
+        m = re.search(r"A\s*=\s*(.*?)\s*:\s*list", o, re.S)
+        tups = coq_tuples(m.group(1), 3) if rc == 0 and m else None
+        if tups is None or {t[0] for t in tups} != set(range(NCAN)):
+            ck.broken.append("C02 aggregate canary: a corrupted aggregate observation was not reported by the file-cursor model "
+                             "evaluation (read back: %s)" % (o[-300:] if tups is None else sorted(tups)[:NCAN]))
+            return None
+    elif sum(c for _, c, _ in meta) > 0:
+        ck.broken.append("C02 aggregate canary: no history without an oracle failure to build the corrupted observation from")
+        return None
+    bad = {}
+    total = 0
+    for (a, counts, itemss), (rc, o) in zip(meta, outs):
+        m = re.search(r"A\s*=\s*(.*?)\s*:\s*list", o, re.S)
+        mt = re.search(r"T\s*=\s*(\d+)(?:%nat)?\s*:\s*nat", o)
+        tups = coq_tuples(m.group(1), 3) if rc == 0 and m else None
+        if tups is None or not mt or int(mt.group(1)) != counts:
+            ck.broken.append("C02 file-cursor model evaluation failed on shard starting at case %d (sent %d observations): %s" % (a, counts, o[-500:]))
+            return None
+        total += counts
+        for (k, i, j) in tups:
+            if k >= len(itemss) or i >= len(itemss[k]) or j >= len(itemss[k][i][1]):
+                ck.broken.append("C02 file-cursor model evaluation: index out of range in %s" % ((k, i, j),))
+                return None
+            bad.setdefault(a + k, []).append(itemss[k][i][1][j])
+    ck.cov["aggregate_observations_replayed_on_file_cursor_model"] = total
+    return bad
+
+
 def eval_model(ck, hs, ok):
     """returns {variant: {case index: (op index, code)}} ; variant in VARIANTS"""
     res = {v: {} for v in VARIANTS}
@@ -356,7 +448,7 @@ def main(ck):
     targets = ["C02/Corr.vo"]
     have_proofs = os.path.exists(os.path.join(ck.verif, "coq", "C02", "Props.v"))
     if have_proofs:
-        targets += ["C02/Proofs.vo", "C02/Refine.vo", "C02/FileCursor.vo"]
+        targets += ["C02/Proofs.vo", "C02/Refine.vo", "C02/FileCursor.vo", "C02/CorrAgg.vo", "C02/LayoutOk.vo"]
     ok = ck.coq_build(targets)
     if ok and have_proofs:
         props = ["C02/Props.v"]
@@ -390,6 +482,7 @@ def main(ck):
         ck.broken.append("harness c02: history %d aborted: %s" % (h["case"], h["crash"][:300]))
 
     res = eval_model(ck, hs, ok)
+    aggbad = eval_agg(ck, hs, ok)
 
     # ---- verdicts
     # entries of the committed per-property fragment that the merged known_findings.json does not hold yet
@@ -493,6 +586,23 @@ def main(ck):
     fc_eligible = sum(1 for h in hs if (h.get("xkinds") or {}).get("agg-desc") and any(
         len([x for x in (o.get("files") or []) if x["order"]]) >= 2 for o in h["ops"]))
     ck.cov["desc_filecursor_finding_histories"] = fc_cases
+    if aggbad:
+        for idx in sorted(aggbad):
+            h = hs[idx]
+            if h.get("oracle") or h.get("xoracle") or h.get("crash"):
+                continue
+            opi, o = aggbad[idx][0]
+            ck.broken.append("correspondence C02 file-cursor model/implementation: history %d op %d: %s(%s) of series %d over [%d,%d]%s = %s" % (
+                h["case"], opi, o["fn"], o["f"], o["s"], o["tmin"], o["tmax"], " desc" if o.get("desc") else "",
+                (o["v"], o.get("t")) if o["has"] else "no result"))
+            if not hasattr(ck, "nofail_detail"):
+                slim = dict(h)
+                slim["ops"] = [{k: v for k, v in x.items() if k in ("k", "rows", "level", "files", "bg")} for x in h["ops"]]
+                ck.nofail_detail = {"kind": "correspondence-file-cursor", "op": opi, "observation": o, "history": slim,
+                                    "explanation": "the model of the file-cursor walk does not reproduce an aggregate the real store "
+                                                   "returned although the direct oracle found it correct"}
+            if len(ck.broken) > 6:
+                break
     for fid, fobj, n in ((FINDING, finding, sig_cases), (FINDING_MS, finding_ms, ms_cases), (FINDING_FC, finding_fc, fc_eligible)):
         if fobj is not None and fid not in reproduced and n > 0:
             ck.notes.append("open finding %s did not reproduce on %d eligible histories: stale (tree looks repaired)" % (fid, n))
